@@ -24,6 +24,7 @@ import (
 	"errors"
 
 	errorsmod "cosmossdk.io/errors"
+	sdk "github.com/cosmos/cosmos-sdk/types"
 
 	"github.com/noble-assets/orbiter/v2/types/core"
 )
@@ -35,6 +36,12 @@ func (a *AmountDispatched) IsPositive() bool {
 func (a DispatchedAmountEntry) Validate() error {
 	if a.Denom == "" {
 		return errors.New("cannot set empty denom")
+	}
+
+	// NOTE: the denom is part of the key of the dispatched amounts, and a string which
+	// is not a valid denom (e.g. containing the null character) cannot be encoded.
+	if err := sdk.ValidateDenom(a.Denom); err != nil {
+		return errorsmod.Wrap(err, "invalid denom")
 	}
 
 	if a.SourceId == nil {
